@@ -64,6 +64,7 @@ const NETCODE_SEND_RATE: Duration = Duration::from_millis(250);
 pub mod verif {
     pub use crate::packet::{ChallengeToken, Packet};
     pub use crate::replay_protection::ReplayProtection;
+    pub use crate::server::VerifConnection;
     use crate::token::PrivateConnectToken;
     use std::net::SocketAddr;
 
